@@ -12,6 +12,7 @@ import EupsModel.Lemmas.TableGrammar
 import EupsModel.Lemmas.TableLegacyDenote
 import EupsModel.Lemmas.TableLegacyOldDenote
 import EupsModel.Lemmas.SetupType
+import EupsModel.Lemmas.TableDefault
 /-! C11 — table files mean what they say.  Property theorems only: the specification side is in
 `Spec/C11.lean`, the models in `Model/{Cond,CondPinned,TableParse}.lean`, the lemmas in `Lemmas/Cond*.lean`. -/
 namespace EupsModel.C11
@@ -708,5 +709,23 @@ example : normTypes [sExact, Str.ofString "build"] (setupArg (Str.ofString "buil
     normTypes [sExact, Str.ofString "build"] (setupArg (Str.ofString "build ")) false = none := by decide +kernel
 open EupsModel.SetupType in
 example : SetupType.wordOK (Str.ofString "build") = true ∧ SetupType.sepOK (Str.ofString ", ") = true := by decide
+
+/-! ## the default product -/
+
+/-- **C11_default_product.**  With a default product configured (`hooks.config.Eups.defaultProduct`, usually
+`toolchain`; `addDefaultProduct` not `False`) `Table(text, product).actions(flavor, types)` is what it is without one
+followed by one implicit, silent `setupOptional` of the default product (its name, the version and `--tag tag` when
+configured) — unconditional, after everything the text denotes, for every text, flavor and list of setup types, errors
+included; without one (`none`) nothing is added.  With `C11_table_text`: the actions written, then the implicit one. -/
+theorem C11_default_product (pdir : Option Str) (env : Env) (text : Str) :
+    (∀ d, tableActionsD repaired pdir (some d) env text
+      = (tableActions repaired pdir env text).bind fun as => .ok (as ++ [implicitAction d])) ∧
+    (∀ v, tableActionsD v pdir none env text = tableActions v pdir env text) :=
+  ⟨fun d => tableActionsD_some pdir d env text, fun v => tableActionsD_none v pdir env text⟩
+
+example : implicitAction ⟨Str.ofString "toolchain", none, none⟩ = ⟨Str.ofString "setupRequired", [Str.ofString "toolchain"], .implicit⟩ ∧
+    implicitAction ⟨Str.ofString "base", some (Str.ofString "1.0"), some (Str.ofString "stable")⟩
+      = ⟨Str.ofString "setupRequired", [Str.ofString "base", Str.ofString "1.0", Str.ofString "--tag", Str.ofString "stable"], .implicit⟩ := by
+  decide
 
 end EupsModel.C11
